@@ -225,73 +225,97 @@ def initDec (p : Params) (ct : Nat) : Option Dec :=
          else some (.unsupported 3)
   | _ => Option.none
 
-/-- `cabd_extract` (fault-free host).  `d` is the instance's cached `self->d`. -/
-def extract (files : Files) (p : Params) (d : Option DState) (m : Member) : ExtractResult :=
-  if m.offset > cabLENGTHMAX then .done .dataformat none d else
+/-- the parameter checks at the top of `cabd_extract`: the number of bytes to extract
+    (`filelen`, clamped in salvage mode) and the folder's identity, or the error returned -/
+def memberCheck (p : Params) (m : Member) : Except Err (Nat × Nat) :=
+  if m.offset > cabLENGTHMAX then .error .dataformat else
   let tooLong := m.length > cabLENGTHMAX - m.offset
-  if tooLong ∧ !p.salvage then .done .dataformat none d else
+  if tooLong ∧ !p.salvage then .error .dataformat else
   let filelen := if tooLong then cabLENGTHMAX - m.offset else m.length
   match m.folderKey with
-  | none => .done .decrunch none d
+  | none => .error .decrunch
   | some key =>
-  if m.mergePrev then .done .decrunch none d else
+  if m.mergePrev then .error .decrunch else
   let maxlen := m.numBlocks * cabBLOCKMAX
-  if !p.salvage ∧ (m.offset > maxlen ∨ filelen > maxlen - m.offset) then .done .decrunch none d else
-  -- reuse or rebuild the decoder
-  let reuse : Option DState := match d with
-    | some ds => if ds.folder = key ∧ ¬ ds.offset > m.offset ∧ ds.dec.isSome then some ds else none
-    | none => none
-  let fresh : Except Err DState :=
-    match m.parts with
-    | [] => .error .open_
-    | part :: _ =>
-      -- (whether the old handle is re-used or the file re-opened is not observable on a
-      --  fault-free host: either way the handle then sits at the folder's first block)
-      let rd? : Option Rd := (files.lookup part.fname).map (fun b => ⟨b, part.offset⟩)
-      match rd? with
-      | none => .error .open_
-      | some rd =>
-        match initDec p m.compType with
-        | none => .error .dataformat
-        | some dec =>
-          .ok { folder := key, offset := 0, dec := some dec,
-                feeder := { rd := some rd, parts := m.parts, block := 0, numBlocks := m.numBlocks,
-                            outlen := 0, buf := [], compType := m.compType, readError := .ok,
-                            lzxLen := none, salvage := p.salvage, fixMszip := p.fixMszip } }
-  let ds? : Except Err DState := match reuse with
-    | some ds => .ok ds
-    | none => fresh
-  match ds? with
-  | .error e => .done e none none   -- (the half-built `self->d` is not modelled further)
-  | .ok ds =>
-    match ds.dec with
-    | none => .done .nomemory none (some ds)
-    | some dec =>
-    if filelen = 0 then .done .ok (some []) (some ds) else
-    -- phase 1: skip to the member's offset (no output handle)
-    let skip := m.offset - ds.offset
-    let phase1 : Except Fault (Option (Err × DState)) :=
-      if skip = 0 then .ok (some (.ok, ds)) else
-      match decompress files dec ds.feeder skip with
-      | .error f => .error f
-      | .ok none => .ok none
-      | .ok (some o) =>
-        let e := if o.err = .read then o.feeder.readError else o.err
-        .ok (some (e, { ds with offset := ds.offset + o.written.length, feeder := o.feeder, dec := some o.dec }))
-    match phase1 with
-    | .error f => .fault f
-    | .ok none => .unsupported
-    | .ok (some (e1, ds)) =>
-      if e1 ≠ .ok then .done e1 (some []) (some ds) else
-      match ds.dec with
-      | none => .done .nomemory none (some ds)
+  if !p.salvage ∧ (m.offset > maxlen ∨ filelen > maxlen - m.offset) then .error .decrunch else
+  .ok (filelen, key)
+
+/-- a decoder freshly set up at the start of the member's folder -/
+def freshDState (files : Files) (p : Params) (m : Member) (key : Nat) : Except Err DState :=
+  match m.parts with
+  | [] => .error .open_
+  | part :: _ =>
+    -- (whether the old handle is re-used or the file re-opened is not observable on a
+    --  fault-free host: either way the handle then sits at the folder's first block)
+    match (files.lookup part.fname).map (fun b => (⟨b, part.offset⟩ : Rd)) with
+    | none => .error .open_
+    | some rd =>
+      match initDec p m.compType with
+      | none => .error .dataformat
       | some dec =>
-      match decompress files dec ds.feeder filelen with
-      | .error f => .fault f
-      | .ok none => .unsupported
-      | .ok (some o) =>
-        let e := if o.err = .read then o.feeder.readError else o.err
-        .done e (some o.written)
-          (some { ds with offset := ds.offset + o.written.length, feeder := o.feeder, dec := some o.dec })
+        .ok { folder := key, offset := 0, dec := some dec,
+              feeder := { rd := some rd, parts := m.parts, block := 0, numBlocks := m.numBlocks,
+                          outlen := 0, buf := [], compType := m.compType, readError := .ok,
+                          lzxLen := none, salvage := p.salvage, fixMszip := p.fixMszip } }
+
+/-- re-use the cached decoder iff it is this folder's, has not passed the member's offset and is
+    live; otherwise rebuild -/
+def obtainDState (files : Files) (p : Params) (d : Option DState) (m : Member) (key : Nat) :
+    Except Err DState :=
+  match d with
+  | some ds =>
+    if ds.folder = key ∧ ¬ ds.offset > m.offset ∧ ds.dec.isSome then .ok ds
+    else freshDState files p m key
+  | none => freshDState files p m key
+
+inductive PhaseResult
+  | ran (e : Err) (written : Bytes) (ds : DState)
+  | unsupported
+  | fault (f : Fault)
+
+/-- one `self->d->decompress(self->d->state, n)` with the `READ → read_error` substitution and
+    the `d->offset` bookkeeping -/
+def runPhase (files : Files) (ds : DState) (dec : Dec) (n : Nat) : PhaseResult :=
+  match decompress files dec ds.feeder n with
+  | .error f => .fault f
+  | .ok none => .unsupported
+  | .ok (some o) =>
+    let e := if o.err = .read then o.feeder.readError else o.err
+    .ran e o.written { ds with offset := ds.offset + o.written.length, feeder := o.feeder, dec := some o.dec }
+
+/-- skip phase (no output handle), then output phase -/
+def runPhases (files : Files) (ds : DState) (m : Member) (filelen : Nat) : ExtractResult :=
+  match ds.dec with
+  | none => .done .nomemory none (some ds)
+  | some dec =>
+  if filelen = 0 then .done .ok (some []) (some ds) else
+  let skip := m.offset - ds.offset
+  if skip = 0 then
+    match runPhase files ds dec filelen with
+    | .fault f => .fault f
+    | .unsupported => .unsupported
+    | .ran e w ds' => .done e (some w) (some ds')
+  else
+    match runPhase files ds dec skip with
+    | .fault f => .fault f
+    | .unsupported => .unsupported
+    | .ran e1 _ ds1 =>
+      if e1 ≠ .ok then .done e1 (some []) (some ds1) else
+      match ds1.dec with
+      | none => .done .nomemory none (some ds1)
+      | some dec1 =>
+        match runPhase files ds1 dec1 filelen with
+        | .fault f => .fault f
+        | .unsupported => .unsupported
+        | .ran e w ds2 => .done e (some w) (some ds2)
+
+/-- `cabd_extract` (fault-free host).  `d` is the instance's cached `self->d`. -/
+def extract (files : Files) (p : Params) (d : Option DState) (m : Member) : ExtractResult :=
+  match memberCheck p m with
+  | .error e => .done e none d
+  | .ok (filelen, key) =>
+    match obtainDState files p d m key with
+    | .error e => .done e none none   -- (the half-built `self->d` is not modelled further)
+    | .ok ds => runPhases files ds m filelen
 
 end MsPack.Cab
